@@ -71,8 +71,13 @@ package api
 // Server timeouts derive from the configured timeout (read 80 %, write 90 %) only when one is configured.
 //@ func (*engine).withTimeout$1
 //@   prop C02
-//@   requires svr != nil && ng != nil
+//@   requires svr != nil && ng != nil && ng.config.Timeout <= 100000000000
 //@   ensures [no-timeout-untouched] ng.config.Timeout <= 0 ==> svr.ReadTimeout == old(svr.ReadTimeout) && svr.WriteTimeout == old(svr.WriteTimeout)
+// the timeout handler buffers the response and writes it - or the 503 - only when the handler is done or the
+// route's timeout fires, so the server's write deadline must lie AFTER the configured timeout and after every
+// longer per-route timeout: with an earlier deadline the client gets neither the handler's answer nor the 503
+//@   replay api_writetimeout
+//@   ensures [write-deadline-after-the-route-timeouts] ng.config.Timeout > 0 ==> svr.WriteTimeout > ng.config.Timeout * 1000000 && forall(i, 0, len(ng.routes), svr.WriteTimeout > ng.routes[i].timeout || ng.routes[i].timeout > 100000000000000000)
 
 // Every route of a group is bound with ITS OWN method, path and handler (the route value of this iteration, not a
 // variable shared by all iterations), under the group's verifier; the first binding error stops.
